@@ -1,1 +1,7 @@
-pub fn x(){}
+//! Verification harness for servo/html5ever (property-based testing + fuzzing).
+#![allow(clippy::all)]
+pub mod engine;
+pub mod gen;
+pub mod props;
+pub mod refimpl;
+pub mod sinks;
